@@ -34,12 +34,15 @@ def runs(index, entries=("backward", "mtl_backward")):
         for inputs_given, chunk in ((True, True), (False, True), (True, False)):
             lab = f"backward(inputs={'given' if inputs_given else 'None'}, parallel_chunk_size={'k' if chunk else 'None'})"
             out.append(Run("backward", lab, {"inputs": inputs_given, "chunk": chunk}, P.run_backward(inputs_given, chunk)))
+        out.append(Run("backward", "backward(tensors=<single Tensor>, inputs=None, parallel_chunk_size=None)", {"inputs": False, "chunk": False, "single": True}, P.run_backward(False, False, single=True)))
         done["backward"] = out
     if "mtl_backward" in entries and "mtl_backward" not in done:
         out = []
         for tg, sg, chunk in ((True, True, True), (False, False, True), (True, False, True), (False, True, True), (True, True, False)):
             lab = f"mtl_backward(tasks_params={'given' if tg else 'None'}, shared_params={'given' if sg else 'None'}, parallel_chunk_size={'k' if chunk else 'None'})"
             out.append(Run("mtl_backward", lab, {"tasks": tg, "shared": sg, "chunk": chunk}, P.run_mtl(tg, sg, chunk)))
+        out.append(Run("mtl_backward", "mtl_backward(features=<single Tensor>, tasks_params=None, shared_params=None, parallel_chunk_size=None)",
+                       {"tasks": False, "shared": False, "chunk": False, "single": True}, P.run_mtl(False, False, False, single=True)))
         done["mtl_backward"] = out
     return P, [r for e in entries for r in done[e]]
 
